@@ -132,9 +132,12 @@ def build_unit(work, name, u):
         # prototype and definition lines (which start with the return type) keep the real name
         txt = open(c).read(); out_ = []
         for fn_, stub_ in u['selfcall'].items():
-            n_calls = 0
+            n_calls = 0; inside = False
             for ln_ in txt.split('\n'):
-                if fn_ + '(' in ln_ and not re.match(r'^(?:void|u8\*?|u16|u32|u64|agg\d+_\d+|double|float) ' + re.escape(fn_) + r'\(', ln_):
+                is_head = re.match(r'^(?:void|u8\*?|u16|u32|u64|agg\d+_\d+|double|float) ' + re.escape(fn_) + r'\(', ln_)
+                if is_head and ln_.rstrip().endswith('{'): inside = True       # definition of fn_: only calls in ITS body are recursive calls
+                elif inside and ln_.startswith('}'): inside = False
+                elif inside and fn_ + '(' in ln_:
                     n_calls += ln_.count(fn_ + '('); ln_ = ln_.replace(fn_ + '(', stub_ + '(')
                 out_.append(ln_)
             if not n_calls: raise Broken('unit %s: selfcall: no recursive call of %s found' % (name, fn_))
@@ -235,7 +238,7 @@ def harness_loops(work, tag, files, defs):
                 loc = lp.get('sourceLocation', {})
                 f = loc.get('file', '')
                 b = os.path.basename(f)
-                if (os.path.dirname(os.path.abspath(f)) == HARNESS and b.endswith('.c')) or b in ('rt.h', 'vp.h', 'ghost.h', 'ghost_more.h'):
+                if os.path.dirname(os.path.abspath(f)) in (HARNESS, MODELS) and b != 'cursor_contract.h' and b != 'libc.h':
                     out.append(lp['name'])
                 else:
                     mk = marks.get((os.path.abspath(os.path.join(loc.get('workingDirectory', ''), f)), int(loc.get('line', 0))))
@@ -537,7 +540,7 @@ def do_check(spec, pid, tier, seed, work, a, t_start):
                'cbmc_property': p['name'], 'inputs': ins, 'tier': tier, 'also_failed': also}
         ok, why = (None, 'no native replay driver for this harness')
         locfile = p['loc'].split(':')[0]
-        if (locfile in ('cursor_contract.h', 'ghost.h', 'ghost_more.h', 'rt.h', 'vp.h', 'str_real.h') or locfile == h['file']) and ('unwinding assertion' in p['desc'] or 'harness bound' in p['desc']):
+        if (os.path.exists(os.path.join(MODELS, locfile)) or os.path.exists(os.path.join(HARNESS, locfile))) and ('unwinding assertion' in p['desc'] or 'harness bound' in p['desc']):
             # a bound of the harness or of a model is too small for this tree: not a statement about the code under test
             broken.append('%s: harness/model bound exceeded: "%s" at %s' % (h['name'], p['desc'], p['loc']))
             continue
